@@ -28,7 +28,9 @@ def run_property(mod, tier, seed, replay=None):
     rng = random.Random(seed)
     problems_build = []
 
-    ok, log = common.ensure_built()
+    targets = ["Properties/%s.vo" % mod.PROP] + [
+        m.replace(".", "/") + ".vo" for m in mod.RUN_MODULE.split()]
+    ok, log = common.ensure_built(targets)
     if not ok:
         problems_build.append("coq build failed: " + log)
     hyg = common.hygiene()
